@@ -1,0 +1,254 @@
+//! Read-only page walk of a `BPlusTree` for the verification harness.
+//!
+//! Compiled only with `--cfg surrealkv_verif`, as a child module of
+//! `bplustree::tree` (see the `#[path]` item at the end of that file) because
+//! the page structures are private to it. Nothing here writes to the file or
+//! to the node cache.
+
+use std::collections::HashSet;
+
+use super::*;
+use crate::verif::btree::{fnv1a, NodeInfo, PageAccounting};
+
+impl<F: VfsFile> BPlusTree<F> {
+	/// Raw page from the file.
+	fn verif_raw_page(&self, offset: u64) -> Result<Vec<u8>> {
+		let mut buffer = vec![0u8; PAGE_SIZE];
+		let n = self.file.read_at(offset, &mut buffer)?;
+		if n != PAGE_SIZE {
+			return Err(BPlusTreeError::Deserialization(format!(
+				"short read of page at offset {}: {} bytes",
+				offset, n
+			)));
+		}
+		Ok(buffer)
+	}
+
+	/// Overflow page, from the cache (if allowed and present) or from the file.
+	fn verif_overflow_page(&self, offset: u64, from_disk: bool) -> Result<OverflowPage> {
+		if !from_disk {
+			if let Some(n) = self.cache.get(&offset) {
+				return match n.as_ref() {
+					NodeType::Overflow(o) => Ok(o.clone()),
+					_ => Err(BPlusTreeError::InvalidOverflowChain(offset)),
+				};
+			}
+		}
+		let buf = self.verif_raw_page(offset)?;
+		OverflowPage::deserialize(&buf, offset)
+	}
+
+	/// Pages and content of an overflow chain.
+	fn verif_chain(&self, first: u64, from_disk: bool, limit: u64) -> Result<(Vec<u64>, Bytes)> {
+		let mut pages = Vec::new();
+		let mut data = BytesMut::new();
+		let mut cur = first;
+		while cur != 0 {
+			if pages.len() as u64 > limit {
+				return Err(BPlusTreeError::Corruption(format!(
+					"overflow chain from {} does not end",
+					first
+				)));
+			}
+			if cur % PAGE_SIZE as u64 != 0 {
+				return Err(BPlusTreeError::InvalidOffset);
+			}
+			let p = self.verif_overflow_page(cur, from_disk)?;
+			pages.push(cur / PAGE_SIZE as u64);
+			data.extend_from_slice(&p.data);
+			cur = p.next_overflow;
+		}
+		Ok((pages, data.freeze()))
+	}
+
+	/// Tree node, from the cache (if allowed and present) or decoded from the file.
+	fn verif_node(&self, offset: u64, from_disk: bool, limit: u64) -> Result<NodeType> {
+		if !from_disk {
+			if let Some(n) = self.cache.get(&offset) {
+				return Ok(n.as_ref().clone());
+			}
+		}
+		let buf = self.verif_raw_page(offset)?;
+		match buf[0] {
+			NODE_TYPE_INTERNAL => Ok(NodeType::Internal(InternalNode::deserialize(
+				&buf,
+				offset,
+				&|o| self.verif_chain(o, true, limit).map(|x| x.1),
+			)?)),
+			NODE_TYPE_LEAF => {
+				Ok(NodeType::Leaf(LeafNode::deserialize(&buf, offset, &|o| {
+					self.verif_chain(o, true, limit).map(|x| x.1)
+				})?))
+			}
+			NODE_TYPE_OVERFLOW => Ok(NodeType::Overflow(OverflowPage::deserialize(&buf, offset)?)),
+			_ => Err(BPlusTreeError::InvalidNodeType),
+		}
+	}
+
+	/// Walk the file and report where every page is referenced from.
+	///
+	/// `from_disk = true` decodes everything from the file (what a reopen would
+	/// see); `false` prefers the node cache and the in-memory header (what the
+	/// running instance sees).
+	pub fn verif_page_accounting(&self, from_disk: bool) -> PageAccounting {
+		let ps = PAGE_SIZE as u64;
+		let mut acc = PageAccounting {
+			page_size: ps,
+			file_size: self.file.size().unwrap_or(0),
+			..Default::default()
+		};
+		let header = if from_disk {
+			let mut buffer = [0u8; 48];
+			match self.file.read_at(0, &mut buffer).map_err(BPlusTreeError::from).and_then(|_| Header::deserialize(&buffer)) {
+				Ok(h) => h,
+				Err(e) => {
+					acc.problems.push(format!("header: {}", e));
+					return acc;
+				}
+			}
+		} else {
+			Header {
+				root_offset: self.header.root_offset,
+				trunk_page_head: self.header.trunk_page_head,
+				total_pages: self.header.total_pages,
+				first_leaf_offset: self.header.first_leaf_offset,
+				free_page_count: self.header.free_page_count,
+				magic: self.header.magic,
+				version: self.header.version,
+			}
+		};
+		acc.total_pages = header.total_pages;
+		acc.root = header.root_offset / ps;
+		acc.first_leaf = header.first_leaf_offset / ps;
+		acc.trunk_head = header.trunk_page_head / ps;
+		acc.free_page_count = header.free_page_count as u64;
+		let limit = header.total_pages + 1;
+
+		// 1. nodes reachable from the root
+		let mut seen: HashSet<u64> = HashSet::new();
+		let mut stack: Vec<(u64, u32)> = vec![(header.root_offset, 1)];
+		while let Some((off, level)) = stack.pop() {
+			if acc.nodes.len() as u64 > 4 * limit {
+				acc.problems.push("node walk does not end".into());
+				break;
+			}
+			let mut info = NodeInfo {
+				page: off / ps,
+				level,
+				..Default::default()
+			};
+			if off % ps != 0 || off < ps || off >= header.total_pages * ps {
+				acc.problems.push(format!("node offset {} out of range", off));
+				acc.nodes.push(info);
+				continue;
+			}
+			if !seen.insert(off) {
+				// referenced twice: list it, do not expand again
+				acc.nodes.push(info);
+				continue;
+			}
+			match self.verif_node(off, from_disk, limit) {
+				Ok(NodeType::Internal(n)) => {
+					info.size = n.current_size() as u32;
+					info.key_lens = n.keys.iter().map(|k| k.len() as u32).collect();
+					info.key_hashes = n.keys.iter().map(|k| fnv1a(k)).collect();
+					info.children = n.children.iter().map(|c| c / ps).collect();
+					for i in 0..n.keys.len() {
+						let ov = n.get_overflow_at(i);
+						match self.verif_chain(ov, from_disk, limit) {
+							Ok((pages, _)) => info.chains.push(pages),
+							Err(e) => {
+								acc.problems.push(format!("key chain of node {}: {}", info.page, e));
+								info.chains.push(vec![ov / ps]);
+							}
+						}
+					}
+					for &c in n.children.iter().rev() {
+						stack.push((c, level + 1));
+					}
+				}
+				Ok(NodeType::Leaf(n)) => {
+					info.is_leaf = true;
+					info.size = n.current_size() as u32;
+					info.key_lens = n.keys.iter().map(|k| k.len() as u32).collect();
+					info.key_hashes = n.keys.iter().map(|k| fnv1a(k)).collect();
+					info.val_lens = n.values.iter().map(|v| v.len() as u32).collect();
+					info.next = n.next_leaf / ps;
+					info.prev = n.prev_leaf / ps;
+					for i in 0..n.keys.len() {
+						let ov = n.get_overflow_at(i);
+						match self.verif_chain(ov, from_disk, limit) {
+							Ok((pages, _)) => info.chains.push(pages),
+							Err(e) => {
+								acc.problems.push(format!("cell chain of leaf {}: {}", info.page, e));
+								info.chains.push(vec![ov / ps]);
+							}
+						}
+					}
+				}
+				Ok(NodeType::Overflow(_)) => {
+					acc.problems.push(format!("overflow page {} used as tree node", info.page));
+				}
+				Err(e) => {
+					acc.problems.push(format!("node {}: {}", info.page, e));
+				}
+			}
+			acc.nodes.push(info);
+		}
+
+		// 2. leaf chain
+		let mut cur = header.first_leaf_offset;
+		let mut seen_leaf: HashSet<u64> = HashSet::new();
+		while cur != 0 {
+			if !seen_leaf.insert(cur) {
+				acc.problems.push(format!("leaf chain revisits page {}", cur / ps));
+				break;
+			}
+			if cur % ps != 0 || cur >= header.total_pages * ps {
+				acc.problems.push(format!("leaf chain offset {} out of range", cur));
+				break;
+			}
+			match self.verif_node(cur, from_disk, limit) {
+				Ok(NodeType::Leaf(n)) => {
+					acc.leaf_chain.push(cur / ps);
+					cur = n.next_leaf;
+				}
+				Ok(_) => {
+					acc.problems.push(format!("leaf chain reaches non-leaf page {}", cur / ps));
+					break;
+				}
+				Err(e) => {
+					acc.problems.push(format!("leaf chain page {}: {}", cur / ps, e));
+					break;
+				}
+			}
+		}
+
+		// 3. free list (trunk pages are always read from the file, as the code does)
+		let mut cur = header.trunk_page_head;
+		let mut seen_trunk: HashSet<u64> = HashSet::new();
+		while cur != 0 {
+			if !seen_trunk.insert(cur) {
+				acc.problems.push(format!("trunk list revisits page {}", cur / ps));
+				break;
+			}
+			if cur % ps != 0 || cur >= header.total_pages * ps {
+				acc.problems.push(format!("trunk offset {} out of range", cur));
+				break;
+			}
+			match self.verif_raw_page(cur).and_then(|b| TrunkPage::deserialize(&b, cur)) {
+				Ok(t) => {
+					acc.trunks.push(cur / ps);
+					acc.trunk_fill.push(t.free_pages.len() as u32);
+					acc.free_entries.extend(t.free_pages.iter().map(|&p| p as u64));
+					cur = t.next_trunk;
+				}
+				Err(e) => {
+					acc.problems.push(format!("trunk page {}: {}", cur / ps, e));
+					break;
+				}
+			}
+		}
+		acc
+	}
+}
